@@ -36,7 +36,7 @@ def soup_word(rng, weights):
     return "0000"
 
 
-def soup(rng, nlines=None, maxwords=14):
+def soup(rng, nlines=None, maxwords=14, popon_only=False):
     weights = [rng.choice([8, 14]), 3, 1.2, rng.choice([3, 6]), 1.5, 1.2, 1.2, rng.choice([0, 0.4]), 0.4,
                rng.choice([0, 0.3]), 1]
     lines = []
@@ -46,6 +46,8 @@ def soup(rng, nlines=None, maxwords=14):
         ws = []
         for _ in range(rng.randint(1, maxwords)):
             w = soup_word(rng, weights)
+            if popon_only and w in (g.RU2, g.RU3, g.RU4, g.RDC, g.CR):
+                w = g.RCL                         # streams that stay in pop-on mode (C05); the other modes belong to C16
             ws.append(w)
             if rng.random() < 0.35 and int(w[:2], 16) & 0x7f < 0x20:
                 ws.append(w)                      # doubled
